@@ -313,6 +313,22 @@ def cdf_case(item, ctx=None):
               break
           if m:
             break
+      if not m and layer is not None and d > 1:
+        # the documented shared-input form: one column (batch, 1) feeding every input slot
+        xs1 = np.array(pts, dtype=np.float32)[:, None]
+        o1 = np.asarray(layer(tf.constant(xs1)), dtype=np.float64)
+        total += o1.size
+        if not np.all(np.isfinite(o1)):
+          m.append("shared (batch, 1) input: non-finite output")
+        elif o1.min() < -eps or o1.max() > 1.0 + eps:
+          m.append("shared (batch, 1) input: output %.6g outside [0,1]" % (o1.min() if o1.min() < -eps else o1.max()))
+        elif np.diff(o1.reshape(len(pts), -1), axis=0).min() < -1e-5:
+          m.append("shared (batch, 1) input: output decreases when the input increases")
+        else:
+          ot = np.asarray(layer(tf.constant(np.tile(xs1, (1, d)))), dtype=np.float64)
+          if ot.shape != o1.shape or np.abs(ot - o1).max() > 1e-5:
+            m.append("shared (batch, 1) input gives a different output than the same value in every "
+                     "column (max diff %.4g)" % (np.abs(ot - o1).max() if ot.shape == o1.shape else -1))
       if m:
         msgs = ["%s (kernel %s, scaling setting %s)" % ("; ".join(m), w.tolist(), sv)]
         break
